@@ -140,6 +140,7 @@ func Preorder(str string, visitor Visitor, opts *VisitorOptions) error {
 type traverser struct {
 	parser  Parser
 	visitor Visitor
+	depth   int // nesting depth of the recursion
 }
 
 // NOTE: keep in sync with (*Parser).Parse method.
@@ -161,10 +162,20 @@ func (self *traverser) decodeValue() error {
 	case types.V_INTEGER:
 		return self.visitor.OnInt64(val.Iv,
 			json.Number(self.parser.s[val.Ep:self.parser.p]))
-	case types.V_ARRAY:
-		return self.decodeArray()
-	case types.V_OBJECT:
-		return self.decodeObject()
+	case types.V_ARRAY, types.V_OBJECT:
+		/* one level of recursion per nesting level: bound it like the native scanners do */
+		if self.depth >= types.MAX_RECURSE {
+			return types.ERR_RECURSE_EXCEED_MAX
+		}
+		self.depth++
+		var err error
+		if val.Vt == types.V_ARRAY {
+			err = self.decodeArray()
+		} else {
+			err = self.decodeObject()
+		}
+		self.depth--
+		return err
 	default:
 		return types.ParsingError(-val.Vt)
 	}
